@@ -11,6 +11,9 @@ import Pyunicorn.Lemmas.NsiCompArenas
 import Pyunicorn.Lemmas.NsiCompConn
 import Pyunicorn.Lemmas.NsiCompFold
 import Pyunicorn.Lemmas.NsiBetwKernel
+import Pyunicorn.Lemmas.NsiWrapped
+import Pyunicorn.Lemmas.NsiBetwTargets
+import Pyunicorn.Lemmas.NsiWrappedArenas
 import Pyunicorn.Model.NsiMeasures
 /-!
 # C02 — Node-splitting invariance of all n.s.i. measures
@@ -385,6 +388,54 @@ example :
         ((List.range 3).filter fun _ => true)) = [0, 3, 0] ∧
     (NetBetw.nsiBetweenness 4 (split pathGd 1 (1/4)).adj (split pathGd 1 (1/4)).w
         ((List.range 4).map fun _ => true) ((List.range 4).filter fun _ => true)) = [0, 3, 0, 3] := by
+  decide +kernel
+
+/-! ### round 5d: arbitrary duplicate-free target lists
+
+`nsi_betweenness_kernel_eq_def` fixes the targets to the increasing list of a node set.  The kernel
+loops over the list it is given; C04 proved that the kernel model does not depend on the order of
+that list (`Relabel.nsiBetweenness_targets_perm`, through C03's definition theorem).  With it the
+C02 statements hold for every duplicate-free target list in any order.  (A list with a repeated
+target counts that target twice — in the kernel and in the pair-dependency definition alike; the
+set-indexed `nsiBetw` cannot express it, and the public wrappers pass index lists of node sets.) -/
+
+/-- the kernel model with **any duplicate-free target list `L`, in any order**, computes the
+documented definition with target set `L` -/
+theorem nsi_betweenness_kernel_eq_def_targets (G : Gr) (hsym : ∀ x y, G.adj x y = G.adj y x)
+    (hw : ∀ k, k < G.n → 0 < G.w k) (S : Nat → Bool) (L : List Nat) (hnd : L.Nodup)
+    (hL : ∀ k ∈ L, k < G.n) (i : Nat) (hi : i < G.n) :
+    (NetBetw.nsiBetweenness G.n G.adj G.w ((List.range G.n).map S) L).getD i 0
+      = nsiBetw (withBfs G) (fun k => decide (k ∈ L)) S i :=
+  kernel_eq_nsiBetw_list G hsym hw S L hnd hL i hi
+
+/-- **node-splitting invariance of the kernel model for arbitrary duplicate-free target lists**:
+`L` on the network, `L'` on the split network, each in any order, `L'` containing a node iff `L`
+contains its collapse (so both twins or none) -/
+theorem nsi_betweenness_kernel_split_targets (G : Gr) (v : Nat) (p : Rat) (hv : v < G.n)
+    (hp0 : 0 < p) (hp1 : p < 1) (hw : ∀ k, k < G.n → 0 < G.w k) (hloop : ∀ i, G.adj i i = false)
+    (hsym : ∀ x y, G.adj x y = G.adj y x) (S : Nat → Bool) (L L' : List Nat) (hnd : L.Nodup)
+    (hL : ∀ k ∈ L, k < G.n) (hnd' : L'.Nodup) (hL' : ∀ k ∈ L', k < G.n + 1)
+    (hmem : ∀ k, k < G.n + 1 → (k ∈ L' ↔ collapse G.n v k ∈ L)) (a : Nat) (ha : a < G.n + 1) :
+    (NetBetw.nsiBetweenness (G.n + 1) (split G v p).adj (split G v p).w
+        ((List.range (G.n + 1)).map fun k => S (collapse G.n v k)) L').getD a 0
+      = (NetBetw.nsiBetweenness G.n G.adj G.w ((List.range G.n).map S) L).getD
+          (collapse G.n v a) 0 := by
+  rw [Relabel.nsiBetweenness_targets_perm (n := G.n + 1) (split G v p).adj
+      (split_adj_symm G v p hsym) (split G v p).w (split_weights_pos G v p hv hp0 hp1 hw) _
+      (split_targets_perm G.n v L L' hnd' hL' hmem) hL',
+    Relabel.nsiBetweenness_targets_perm (n := G.n) G.adj hsym G.w hw _
+      (nodup_perm_filter G.n L hnd hL) hL]
+  exact nsi_betweenness_kernel_split G v p hv hp0 hp1 hw hloop hsym S
+    (fun k => decide (k ∈ L)) a ha
+
+/-- non-vacuity: the weighted path 0–1–2 with the targets listed as `[2, 0, 1]`, its split at node 1
+with the targets listed as `[3, 1, 0, 2]`: same values as with the increasing lists -/
+example :
+    (NetBetw.nsiBetweenness 3 pathGd.adj pathGd.w ((List.range 3).map fun _ => true) [2, 0, 1])
+      = [0, 3, 0] ∧
+    (NetBetw.nsiBetweenness 4 (split pathGd 1 (1/4)).adj (split pathGd 1 (1/4)).w
+        ((List.range 4).map fun _ => true) [3, 1, 0, 2]) = [0, 3, 0, 3] ∧
+    (∀ k, k < 4 → (k ∈ [3, 1, 0, 2] ↔ collapse 3 1 k ∈ [2, 0, 1])) := by
   decide +kernel
 
 /-! ### round 4 (b): Newman-type random-walk betweenness, with the matrix inverse as an assumed
@@ -1011,6 +1062,228 @@ example : arenasWrapped (split compG2 1 (1/4)) false true
     (arenasWrapped compG2 false true).isSome = true ∧
     ((arenasWrapped compG2 false true).getD []).getD 1 0 ≠ 0 ∧
     compList (split compG2 1 (1/4)) = [[0, 1, 2, 3, 6], [4, 5]] := by
+  decide +kernel
+
+/-! ## Round 5d: the executable models are the functions of the theorems; invariance of `newmanWrapped` / `arenasWrapped` themselves
+
+Until round 5c the executable `newmanAll` / `arenasAll` (what the driver runs and the correspondence
+compares with the implementation, entry by entry in exact rationals) were tied to `nsiNewman` /
+`arenasB` (what the invariance theorems are about) only by being written with the same kernels.
+Now this is a theorem, and with `per_component_loop_eq_per_node` and the wrapper theorems it gives
+the node-splitting invariance of the arrays `newmanWrapped` / `arenasWrapped` return. -/
+
+/-- **`newmanAll` = `nsiNewman`.**  The list the driver prints for `nsi_newman_betweenness` of a
+connected network is `[nsiNewman G T ends i | i < N]` with `T = newmanT G`, and `newmanT G` is the
+grounded Gauss–Jordan inverse of `sp_M = newmanM G` itself (the materialised tables `toFun (ofFun …)`
+of the executable model are invisible: every loop reads them inside the node range only). -/
+theorem newman_all_eq_nsi_newman (G : Gr) (ends : Bool) :
+    newmanAll G ends = (newmanT G).map (fun T => (List.range G.n).map (nsiNewman G T ends)) ∧
+    newmanT G = groundedInv G.n (newmanM G) :=
+  ⟨newmanAll_eq G ends, newmanT_eq G⟩
+
+/-- … entry by entry, with `newmanTof G` = the Gauss–Jordan result -/
+theorem newman_all_entries (G : Gr) (ends : Bool) (l : List Rat) (h : newmanAll G ends = some l) :
+    l.length = G.n ∧ ∀ i, i < G.n → l.getD i 0 = nsiNewman G (newmanTof G) ends i :=
+  newmanAll_getD G ends l h
+
+/-- `sp_M_inv` as the model computes it depends on the network inside its node range only (the
+hypothesis `hTcongr` of `nsi_newman_betweenness_wrapper_split`, for the executable inverse) -/
+theorem newman_inverse_reads_range_only (H H' : Gr) (h : RangeEq H H') : newmanT H = newmanT H' :=
+  newmanT_congr h
+
+/-- the flag `solves` / `csolves` of the driver decides the two hypotheses `SolvesL` / `SolvesR`
+of the invariance theorems for the Gauss–Jordan inverse -/
+theorem newman_solves_flag_sound (H : Gr) (h : newmanSolves H = true) :
+    SolvesL H.n (nsiQ H) (newmanM H) (newmanTof H) ∧ SolvesR H.n (newmanM H) (newmanTof H) :=
+  newmanSolves_sound H h
+
+/-- **`arenasAll` = `arenasB`.**  The list the driver prints for `nsi_arenas_betweenness` of a
+connected network is `[arenasB G V excl j | j < N]` with `V i` the Gauss–Jordan solution
+`arenasVs G σ i`, and the flag `ok` implies that every `V i` solves `(1 − sp_Pi) V = sp_Pi`
+(`ArenasSolves`, the hypothesis of `nsi_arenas_betweenness_split`). -/
+theorem arenas_all_eq_arenas_b (G : Gr) (sigma : Nat → Nat → Rat) (excl : Bool) (l : List Rat)
+    (ok : Bool) (h : arenasAll G sigma excl = some (l, ok)) :
+    l = (List.range G.n).map (arenasB G (arenasVs G sigma) excl) ∧
+    (ok = true → ∀ i, i < G.n → ArenasSolves G sigma i (arenasVs G sigma i)) :=
+  arenasAll_spec G sigma excl l ok h
+
+/-- **Node-splitting invariance of `newmanWrapped` itself** (`nsi_newman_betweenness` through the
+component loop with copy-back, both values of `add_local_ends`, computed with the exact Gauss–Jordan
+grounded inverses): on every undirected loop-free network with positive node weights, if the loop
+returns `r` on the network and `r'` on its split copy, then `r'` has one entry more, agrees with `r`
+on the old nodes and the twin carries `v`'s entry.  Hypotheses `hL` / `hR`: on the sub-networks of
+the components concerned the Gauss–Jordan result does what an inverse is used for (`SolvesL` /
+`SolvesR`) — decided per case by the driver's flags, see `nsi_newman_wrapped_split_checked`; they
+follow from "Gauss–Jordan inverts", see `nsi_newman_wrapped_split_grounded`. -/
+theorem nsi_newman_wrapped_split (G : Gr) (hsym : ∀ i j, G.adj i j = G.adj j i)
+    (hloop : ∀ i, G.adj i i = false) (hw : ∀ k, k < G.n → 0 < G.w k) (v : Nat) (p : Rat)
+    (hv : v < G.n) (hp0 : 0 < p) (hp1 : p < 1) (ends : Bool) (r r' : List Rat)
+    (hr : newmanWrapped G ends = some r) (hr' : newmanWrapped (split G v p) ends = some r')
+    (hL : ∀ a, a < G.n + 1 →
+      SolvesL (subGr G (compNodes G (collapse G.n v a))).n
+        (nsiQ (subGr G (compNodes G (collapse G.n v a))))
+        (newmanM (subGr G (compNodes G (collapse G.n v a))))
+        (newmanTof (subGr G (compNodes G (collapse G.n v a)))))
+    (hR : ∀ a, a < G.n + 1 →
+      SolvesR (subGr (split G v p) (compNodes (split G v p) a)).n
+        (newmanM (subGr (split G v p) (compNodes (split G v p) a)))
+        (newmanTof (subGr (split G v p) (compNodes (split G v p) a)))) :
+    r'.length = r.length + 1 ∧
+    (∀ a, a < G.n → r'.getD a 0 = r.getD a 0) ∧ r'.getD G.n 0 = r.getD v 0 :=
+  newmanWrapped_split G hsym hloop hw v p hv hp0 hp1 ends r r' hr hr' hL hR
+
+/-- **… with the executable flags as the only hypotheses**: `newmanSolves` (exact rational check of
+`SolvesL` / `SolvesR`) is true on the sub-network of every component with at least two nodes of the
+network and of its split copy (driver output `csolves`, demanded by the correspondence on every
+test graph). -/
+theorem nsi_newman_wrapped_split_checked (G : Gr) (hsym : ∀ i j, G.adj i j = G.adj j i)
+    (hloop : ∀ i, G.adj i i = false) (hw : ∀ k, k < G.n → 0 < G.w k) (v : Nat) (p : Rat)
+    (hv : v < G.n) (hp0 : 0 < p) (hp1 : p < 1) (ends : Bool) (r r' : List Rat)
+    (hr : newmanWrapped G ends = some r) (hr' : newmanWrapped (split G v p) ends = some r')
+    (hflag : ∀ a, a < G.n → 2 ≤ (compNodes G a).length →
+      newmanSolves (subGr G (compNodes G a)) = true)
+    (hflag' : ∀ a, a < G.n + 1 → 2 ≤ (compNodes (split G v p) a).length →
+      newmanSolves (subGr (split G v p) (compNodes (split G v p) a)) = true) :
+    r'.length = r.length + 1 ∧
+    (∀ a, a < G.n → r'.getD a 0 = r.getD a 0) ∧ r'.getD G.n 0 = r.getD v 0 := by
+  refine newmanWrapped_split G hsym hloop hw v p hv hp0 hp1 ends r r' hr hr' (fun a ha => ?_)
+    (fun a ha => ?_)
+  · by_cases h2 : 2 ≤ (compNodes G (collapse G.n v a)).length
+    · exact (newmanSolves_sound _ (hflag _ (collapse_lt_n G.n v a hv ha) h2)).1
+    · exact solvesL_small _ (by simp only [subGr_n]; omega) _ _ _
+  · by_cases h2 : 2 ≤ (compNodes (split G v p) a).length
+    · exact (newmanSolves_sound _ (hflag' a ha h2)).2
+    · exact solvesR_small _ (by simp only [subGr_n]; omega) _ _
+
+/-- **… with "Gauss–Jordan inverts" as the only hypothesis**: on the sub-networks concerned the
+result `newmanTof` of the exact elimination is a grounded inverse (`IsGroundedInv`: zero last row /
+column, leading block a two-sided inverse of the leading block of `sp_M`). -/
+theorem nsi_newman_wrapped_split_grounded (G : Gr) (hsym : ∀ i j, G.adj i j = G.adj j i)
+    (hloop : ∀ i, G.adj i i = false) (hw : ∀ k, k < G.n → 0 < G.w k) (v : Nat) (p : Rat)
+    (hv : v < G.n) (hp0 : 0 < p) (hp1 : p < 1) (ends : Bool) (r r' : List Rat)
+    (hr : newmanWrapped G ends = some r) (hr' : newmanWrapped (split G v p) ends = some r')
+    (hinv : ∀ a, a < G.n →
+      IsGroundedInv (subGr G (compNodes G a)).n (newmanM (subGr G (compNodes G a)))
+        (newmanTof (subGr G (compNodes G a))))
+    (hinv' : ∀ a, a < G.n + 1 →
+      IsGroundedInv (subGr (split G v p) (compNodes (split G v p) a)).n
+        (newmanM (subGr (split G v p) (compNodes (split G v p) a)))
+        (newmanTof (subGr (split G v p) (compNodes (split G v p) a)))) :
+    r'.length = r.length + 1 ∧
+    (∀ a, a < G.n → r'.getD a 0 = r.getD a 0) ∧ r'.getD G.n 0 = r.getD v 0 := by
+  refine newmanWrapped_split G hsym hloop hw v p hv hp0 hp1 ends r r' hr hr' (fun a ha => ?_)
+    (fun a ha => ?_)
+  · have hc := collapse_lt_n G.n v a hv ha
+    exact (grounded_inverse_solves _
+      (by simp only [subGr_n]; exact List.length_pos_of_mem (self_mem_compNodes G _ hc))
+      (subGr_weights_pos G _ (fun x hx => compNodes_lt _ _ x hx) hw)
+      (fun i j => hsym _ _) _ (hinv _ hc)).1
+  · exact (grounded_inverse_solves _
+      (by simp only [subGr_n]; exact List.length_pos_of_mem (self_mem_compNodes (split G v p) a ha))
+      (subGr_weights_pos (split G v p) _ (fun x hx => compNodes_lt _ _ x hx)
+        (split_weights_pos G v p hv hp0 hp1 hw))
+      (fun i j => split_adj_symm G v p hsym _ _) _ (hinv' a ha)).2
+
+/-- non-vacuity: on links 0–1, 2–3 | node 4 alone, split at node 2 (the twin joins the component
+{2,3}) and at the isolated node 4 (the shortcut becomes a 2-node computation): both loops return,
+all flags are true, and the arrays are as the theorem says -/
+example :
+    newmanWrapped compG true = some [9, 9, 16, 16, 4] ∧
+    newmanWrapped (split compG 2 (1/4)) true = some [9, 9, 16, 16, 4, 16] ∧
+    ((List.range 5).all fun a => decide ((compNodes compG a).length < 2) ||
+      newmanSolves (subGr compG (compNodes compG a))) = true ∧
+    ((List.range 6).all fun a => decide ((compNodes (split compG 2 (1/4)) a).length < 2) ||
+      newmanSolves (subGr (split compG 2 (1/4)) (compNodes (split compG 2 (1/4)) a))) = true ∧
+    ((List.range 6).all fun a => decide ((compNodes (split compG 4 (1/4)) a).length < 2) ||
+      newmanSolves (subGr (split compG 4 (1/4)) (compNodes (split compG 4 (1/4)) a))) = true ∧
+    newmanAll path5 false = some ((List.range 5).map (nsiNewman path5 (newmanTof path5) false)) ∧
+    (newmanAll path5 false).map (fun l => l.getD 2 0) = some (4/3) := by
+  decide +kernel
+
+/-- **Node-splitting invariance of `arenasWrapped` itself** (`nsi_arenas_betweenness` through the
+component loop, all four argument patterns `stopping_mode` × `exclude_neighbors`, computed with the
+exact Gauss–Jordan solves) — **no hypothesis on the linear algebra**: the modelled wrapper returns
+an array only if every solution was verified exactly (`arenasAll`'s flag, `arenas_all_eq_arenas_b`),
+and the systems of the split copy are regular because a component's sub-network is connected
+(`arenas_systems_regular`).  On every undirected loop-free network with positive node weights: if
+the loop returns `r` on the network and `r'` on its split copy, `r'` has one entry more, agrees with
+`r` on the old nodes and the twin carries `v`'s entry. -/
+theorem nsi_arenas_wrapped_split (G : Gr) (hsym : ∀ i j, G.adj i j = G.adj j i)
+    (hloop : ∀ i, G.adj i i = false) (hw : ∀ k, k < G.n → 0 < G.w k) (v : Nat) (p : Rat)
+    (hv : v < G.n) (hp0 : 0 < p) (hp1 : p < 1) (twin excl : Bool) (r r' : List Rat)
+    (hr : arenasWrapped G twin excl = some r)
+    (hr' : arenasWrapped (split G v p) twin excl = some r') :
+    r'.length = r.length + 1 ∧
+    (∀ a, a < G.n → r'.getD a 0 = r.getD a 0) ∧ r'.getD G.n 0 = r.getD v 0 := by
+  rw [arenasWrapped_eq] at hr hr'
+  have h1 := perComponent_eq_perNode G hsym _ _ r hr
+  have h2 := perComponent_eq_perNode (split G v p) (split_adj_symm G v p hsym) _ _ r' hr'
+  have hadm : (∀ H H', RangeEq H H' → ∀ a b, a < H.n → b < H.n →
+        arenasSigOf twin H a b = arenasSigOf twin H' a b) ∧
+      (∀ (H : Gr) (k : Nat), k < H.n → ∀ a b,
+        arenasSigOf twin (split H k p) a b = arenasSigOf twin H (collapse H.n k a) (collapse H.n k b)) ∧
+      (∀ K : Gr, (∀ k, k < K.n → 0 < K.w k) → (∀ i j, i < K.n → j < K.n → aplus K i j = 1) →
+        ∀ i j, i < K.n → j < K.n → arenasSigOf twin K i j = 1) := by
+    cases twin
+    · exact ⟨fun _ _ _ _ _ _ _ => rfl, fun _ _ _ _ _ => rfl, fun _ _ _ _ _ _ _ => rfl⟩
+    · exact stopping_rules_admissible p
+  have small : ∀ K : Gr, (∀ k, k < K.n → 0 < K.w k) → K.n < 2 → ∀ i, i < K.n →
+      ArenasSolves K (arenasSigOf twin K) i (fun _ _ => 0) := fun K hwK hK i hi =>
+    arenasSolves_small K _ hK (hadm.2.2 K hwK (fun x y hx hy => by
+      have hx0 : x = 0 := by omega
+      have hy0 : y = 0 := by omega
+      subst hx0; subst hy0; simp [aplus])) i hi
+  have key : ∀ a, a < G.n + 1 → r'.getD a 0 = r.getD (collapse G.n v a) 0 := by
+    intro a ha
+    have hc := collapse_lt_n G.n v a hv ha
+    obtain ⟨e1, s1⟩ := perNode_arenas G twin excl _ hc _ (h1.2 _ hc)
+    obtain ⟨e2, s2⟩ := perNode_arenas (split G v p) twin excl a ha _ (h2.2 a ha)
+    rw [e1, e2, ← arenasAt_Vof2, ← arenasAt_Vof2 G]
+    have hwH := subGr_weights_pos G (compNodes G (collapse G.n v a))
+      (fun x hx => compNodes_lt _ _ x hx) hw
+    have hwH' := subGr_weights_pos (split G v p) (compNodes (split G v p) a)
+      (fun x hx => compNodes_lt _ _ x hx) (split_weights_pos G v p hv hp0 hp1 hw)
+    have hsymA : ∀ i j, aplus (subGr (split G v p) (compNodes (split G v p) a)) i j
+        = aplus (subGr (split G v p) (compNodes (split G v p) a)) j i :=
+      aplus_symm _ (fun i j => split_adj_symm G v p hsym _ _)
+    refine arenasAt_split G v p hv hp0 hp1 hw hloop (arenasSigOf twin) (arenasVof2 twin) hadm.1
+      hadm.2.1 hadm.2.2 (arenasVof2_congr twin) excl a ha (fun i hi => ?_) (fun i hi => ?_)
+      (fun i hi => ?_)
+    · unfold arenasVof2
+      split
+      · rename_i hlt
+        exact small _ hwH hlt i hi
+      · rename_i hlt
+        exact s1 (by simpa [subGr] using hlt) i hi
+    · unfold arenasVof2
+      split
+      · rename_i hlt
+        exact small _ hwH' hlt i hi
+      · rename_i hlt
+        exact s2 (by simpa [subGr] using hlt) i hi
+    · have hconn := subGr_comp_connected (split G v p) (split_adj_symm G v p hsym) a ha
+      cases twin
+      · exact arenas_regular _ hwH' hconn _ i hi rfl
+          (fun _ _ _ => ⟨by simp [arenasSigOf], by simp [arenasSigOf]⟩)
+      · exact arenas_regular _ hwH' hconn _ i hi (twinness_diag _ hwH' hsymA i hi)
+          (fun r _ _ => twinness_bounds _ hwH' i r hi)
+  refine ⟨by rw [h1.1, h2.1]; rfl, fun a ha => ?_, ?_⟩
+  · have := key a (by omega)
+    rw [collapse_lt _ _ _ ha] at this; exact this
+  · have := key G.n (by omega)
+    rw [collapse_self] at this; exact this
+
+/-- non-vacuity: on path 0–1–2–3 | link 4–5 both loops return in all four argument patterns, the
+inner nodes of the path have non-zero values, and `arenasAll` is `arenasB` of the Gauss–Jordan
+solutions with the flag true -/
+example :
+    (arenasWrapped compG2 false true).isSome = true ∧
+    (arenasWrapped (split compG2 1 (1/4)) false true).isSome = true ∧
+    (arenasWrapped compG2 true false).isSome = true ∧
+    (arenasWrapped (split compG2 1 (1/4)) true false).isSome = true ∧
+    ((arenasWrapped compG2 true false).getD []).getD 1 0 ≠ 0 ∧
+    arenasAll path4 (fun _ _ => 1) false
+      = some ((List.range 4).map (arenasB path4 (arenasVs path4 (fun _ _ => 1)) false), true) := by
   decide +kernel
 
 /-! ### round 5: `nsi_eigenvector_centrality`
